@@ -2,7 +2,7 @@
 """dev helper: every property's failing-input search must find NOTHING on the unchanged tree."""
 import importlib, os, sys, time, logging
 HERE = os.path.dirname(os.path.abspath(__file__))
-sys.path.insert(0, HERE); sys.path.insert(0, "/repo")
+sys.path.insert(0, HERE); sys.path.insert(0, os.environ.get("PASSLIB_REPO", "/repo"))
 logging.disable(logging.WARNING)
 from runner import Ctx
 SEEDS = [int(x) for x in os.environ.get("SELFTEST_SEEDS", "0").split(",")]
